@@ -59,7 +59,7 @@ func init() {
 		Text: "the set of functions containing an explicit panic equals the frozen, documented list",
 		Run:  runR23})
 	register(&Rule{ID: "R34", Name: "CARD-GUARD", Floor: 2,
-		Text: "every call of the function that mints a new enum rank (appends to the values table) is dominated by `!strict` and by a guard implying len(values) < maxCardinality (255)",
+		Text: "every call of the function that mints a new enum rank (appends to the values table) is dominated by `!strict` and by a guard implying exactly len(values) < maxCardinality (255): the 255th value is accepted and the 256th rejected; NewFactory rejects declared lists exactly from 256 values on",
 		Run:  runR34})
 	register(&Rule{ID: "R36", Name: "EXHAUSTIVE", Floor: 1,
 		Text: "the type switch over column.Column implementers in sql.NewArgBuilder handles all five data column types, and its fall-through returns an error",
@@ -1653,6 +1653,7 @@ func runR23(c *Ctx) {
 
 func runR34(c *Ctx) {
 	p := c.P
+	declaredCardinality(c)
 	// minting functions: append to the `values` field
 	mint := map[*ssa.Function]bool{}
 	for _, fn := range p.FuncsIn("internal/ecolumn") {
@@ -1678,6 +1679,7 @@ func runR34(c *Ctx) {
 			}
 			key := fname(fn) + "|mint new enum value"
 			strictOK, cardOK := false, false
+			exactHi := int64(-1)
 			for _, g := range dominatingGuards(call.Block()) {
 				if fld, _ := fieldOf(g.Cond); fld != nil && fld.Name() == "strict" && !g.Val {
 					strictOK = true
@@ -1694,17 +1696,71 @@ func runR34(c *Ctx) {
 				_, hi, _, hasHi := bounds(lc, call.Block())
 				if hasHi && hi <= 254 {
 					cardOK = true
+					exactHi = hi
 				}
 			})
 			switch {
+			case strictOK && cardOK && exactHi != 254:
+				c.bad(key, p.instrPos(call), fmt.Sprintf("the cardinality guard only lets a new value in while len(values) <= %d: derived enums must accept up to 255 distinct values (the 255th is minted when 254 exist)", exactHi))
 			case strictOK && cardOK:
-				c.ok(key, p.instrPos(call), "dominated by !strict and len(values) <= 254")
+				c.ok(key, p.instrPos(call), "dominated by !strict and len(values) <= 254 (exactly: the 255th value is accepted, the 256th rejected)")
 			case !strictOK:
 				c.bad(key, p.instrPos(call), "a new enum value can be minted for a strict (declared) enum: undeclared values are accepted")
 			default:
 				c.bad(key, p.instrPos(call), "a new enum value can be minted when 255 values exist already: the 256th rank collides with the null marker / wraps around")
 			}
 		})
+	}
+}
+
+// declaredCardinality: NewFactory accepts exactly the declared lists of up to 255 values.
+func declaredCardinality(c *Ctx) {
+	p := c.P
+	fn := p.Func("internal/ecolumn", "NewFactory")
+	if fn == nil {
+		c.undecided("internal/ecolumn.NewFactory", "-", "not found")
+		return
+	}
+	key := fname(fn) + "|declared cardinality"
+	done := false
+	eachInstr(fn, func(in ssa.Instruction) {
+		iff, ok := in.(*ssa.If)
+		if !ok || done {
+			return
+		}
+		cmp, ok := iff.Cond.(*ssa.BinOp)
+		if !ok {
+			return
+		}
+		lc, ok := cmp.X.(*ssa.Call)
+		if !ok || builtinName(lc) != "len" {
+			return
+		}
+		k, isK := constInt(cmp.Y)
+		if !isK {
+			return
+		}
+		tb := iff.Block().Succs[0]
+		ret, isRet := tb.Instrs[len(tb.Instrs)-1].(*ssa.Return)
+		if !isRet || returnsNilError(ret) {
+			return
+		}
+		done = true
+		minRejected := int64(-1)
+		switch cmp.Op {
+		case token.GTR:
+			minRejected = k + 1
+		case token.GEQ:
+			minRejected = k
+		}
+		if minRejected == 256 {
+			c.ok(key, p.instrPos(iff), "lists of up to 255 declared values are accepted, 256 and more rejected")
+		} else {
+			c.bad(key, p.instrPos(iff), fmt.Sprintf("declared value lists are rejected from length %d on; the limit is 255 values (256 must be the first rejected length)", minRejected))
+		}
+	})
+	if !done {
+		c.bad(key, p.pos(fn.Pos()), "no guard rejects over-long declared value lists")
 	}
 }
 
